@@ -480,6 +480,10 @@ def run(prog, tier, seed):
     r2 = rule_ctl2(prog, tier)
     r3 = rule_ctl3(prog, labeller, table, tier)
     r5 = rule_ctl5(prog, entry, labeller, memo_ok, why)
+    from . import c09
+    r5b = c09.rule_rt4(prog, PROP, 'R-CTL-5b', langs=('CTL',))
+    r5b.title = ('memo key (printed form in CTL notation) is injective: two '
+                 'CTL trees never share a memo entry')
     expl = ('The CTL labeller is discovered from CTL.modelcheck and '
             'interpreted abstractly per formula shape: (1) every restricted '
             'shape is handled directly and every other shape is rewritten '
@@ -496,6 +500,7 @@ def run(prog, tier, seed):
                    'SCCs, next) behave as documented (C12/C13)',
                    'handler summaries are compared on all total structures '
                    'with <= 3 states: bounded',
-                   'memo key injectivity is decided under C09/C11 '
-                   '(R-RT-4)']
-    return [r1, r2, r3, r5], expl, assumptions, {}
+                   'memo key injectivity: printer grammar of the CTL notation '
+                   'is LR(1) over canonical tokens (atoms identifier-style, '
+                   'not reserved words)']
+    return [r1, r2, r3, r5, r5b], expl, assumptions, {}
